@@ -446,21 +446,22 @@ NextLaunch ==
        ELSE /\ stage' = "done"
             /\ UNCHANGED <<genvars, runvars>>
 
-Step == /\ stage = "run"
-        /\ \E o \in Blocks(RunNest), i \in Threads(RunNest) : StepStmt(o, i) \/ StepPhase(o, i)
+\* (every action is a named disjunct of Next so that TLC's coverage reports them one by one; the guards
+\*  are repeated in front of the quantifiers so that the choice sets are only built where needed)
+DoStmt  == stage = "run" /\ \E o \in Blocks(RunNest), i \in Threads(RunNest) : StepStmt(o, i)
+DoPhase == stage = "run" /\ \E o \in Blocks(RunNest), i \in Threads(RunNest) : StepPhase(o, i)
+Step == DoStmt \/ DoPhase
 
-\* (the guards are repeated in front of the quantifiers so that the choice sets are only built
-\*  where they are needed)
-Build == /\ stage = "build"
-         /\ \/ /\ (CurNest = 0 \/ NestFull) /\ CurNest < Len(plan)
-               /\ \E h \in Heads(cls), w \in Wraps(cls) : BeginNest(h, w)
-            \/ /\ CurNest > 0 /\ CurPhase > 0 /\ ~PhaseFull
-               /\ \E s \in Menu(cls) : AddStmt(s)
-            \/ /\ PhaseFull /\ CurPhase < Len(NestPlan)
+DoBegin == /\ stage = "build" /\ (CurNest = 0 \/ NestFull) /\ CurNest < Len(plan)
+           /\ \E h \in Heads(cls), w \in Wraps(cls) : BeginNest(h, w)
+DoAdd   == /\ stage = "build" /\ CurNest > 0 /\ CurPhase > 0 /\ ~PhaseFull
+           /\ \E s \in Menu(cls) : AddStmt(s)
+DoNextPhase == /\ stage = "build" /\ PhaseFull /\ CurPhase < Len(NestPlan)
                /\ \E nb \in NoBarChoices(cls), w \in Wraps(cls) : NextPhase(nb, w)
-            \/ Finish
+Build == DoBegin \/ DoAdd \/ DoNextPhase \/ Finish
+DoLaunch == \E a \in CheckArgs : Launch(a)
 
-Next == Build \/ (\E a \in CheckArgs : Launch(a)) \/ Step \/ NextLaunch
+Next == DoBegin \/ DoAdd \/ DoNextPhase \/ Finish \/ DoLaunch \/ DoStmt \/ DoPhase \/ NextLaunch
 
 Spec == Init /\ [][Next]_vars
 
